@@ -599,6 +599,46 @@ func c19Fidelity(c *Ctx) {
 	if withRec {
 		cell = "fidelity/self-referential-field"
 	}
+	// the model stays faithful when the program extends it after looking something up: the finders see a group
+	// added below the top level and a changed namespace
+	if c.K%3 == 0 {
+		nsOf := func() string {
+			if g.Namespace != "" {
+				return g.Namespace + "."
+			}
+			return ""
+		}
+		for _, f := range grpFields {
+			if l := lastOf(f.Items, "long"); l != "" {
+				if o := p.FindOptionByLongName(nsOf() + l); o == nil || o.Field().Name != f.Name {
+					c.Violate("finder:declared-option", "FindOptionByLongName(%q) does not return field %s of the nested group", nsOf()+l, f.Name)
+					return
+				}
+			}
+		}
+		late := &struct {
+			Late string `long:"zz-late" short:"~"`
+		}{}
+		if _, err := g.AddGroup("Late Options", "", late); err != nil {
+			c.Violate("finder:late-group-rejected", "AddGroup on the nested group failed: %v", err)
+			return
+		}
+		if o := p.FindOptionByLongName(nsOf() + "zz-late"); o == nil || o.Field().Name != "Late" {
+			c.Violate("finder:late-group", "after AddGroup below the top level, parser.FindOptionByLongName(%q) = %v (FindOptionByShortName finds it: %v)", nsOf()+"zz-late", o, p.FindOptionByShortName('~') != nil)
+			return
+		}
+		old := nsOf() + "zz-late"
+		g.Namespace = "renamed"
+		if o := p.FindOptionByLongName("renamed.zz-late"); o == nil || o.Field().Name != "Late" {
+			c.Violate("finder:namespace-change", "after the group's Namespace was set to \"renamed\", FindOptionByLongName(\"renamed.zz-late\") = %v", o)
+			return
+		}
+		if o := p.FindOptionByLongName(old); o != nil && old != "renamed.zz-late" {
+			c.Violate("finder:namespace-change", "after the namespace change the old name %q still resolves", old)
+			return
+		}
+		cell += "+late-extension"
+	}
 	nkeys := 0
 	for _, f := range append(append(append([]c19Field{}, rootFields...), grpFields...), cmdFields...) {
 		nkeys += len(f.Items)
